@@ -2282,6 +2282,10 @@ func (rws *responseWriterState) declareTrailer(k string) {
 		// Forbidden by RFC 2616 14.40.
 		return
 	}
+	if HopHeaders[k] {
+		// connection-specific fields are not valid in HTTP/2 (RFC 7540 section 8.1.2.2)
+		return
+	}
 	if !strSliceContains(rws.trailers, k) {
 		rws.trailers = append(rws.trailers, k)
 	}
@@ -2503,7 +2507,7 @@ func cloneHeader(h http.Header) http.Header {
 	for k, vv := range h {
 		// ignore connection specific headers. For more information,
 		// see RFC 7540 section 8.1.2.2
-		if HopHeaders[k] {
+		if HopHeaders[http.CanonicalHeaderKey(k)] {
 			continue
 		}
 
